@@ -42,3 +42,36 @@ Print Assumptions C15_ent_scan_stuffed.
 Example C15_ent_scan_stuffed_instance :
   mcus_ok ex_codes ex_dcT ex_acT [0; 1; 1] (map (fun _ => 0) [0; 1; 1]) ex_mcus.
 Proof. exact ex_mcus_ok. Qed.
+
+(* Restart intervals (DRI + RSTn), which foreign streams use and this library's encoder never
+   emits.  JentRst.enc_scan_rst is a SPEC encoder written from T.81 E.1.4 / F.1.2.3: intervals
+   of Ri MCUs (the last may be shorter), each coded on its own with DC predictors starting at 0
+   and padded with 1-bits, separated by RSTm = FF D0+(m mod 8).  The library's decodeScan
+   (split at RSTn, switch interval and zero the predictors at every MCU k > 0 with
+   k mod Ri = 0) returns exactly the encoder's blocks, for every Ri >= 1 and every number of
+   MCUs.  The hypothesis is mcus_ok per interval (predictors restart at 0).  The Go decoder
+   needs at least ceil(nmcu/Ri) intervals (fewer: ErrInvalidData), ignores surplus intervals
+   and does not check m; a valid scan has exactly ceil(nmcu/Ri), the case stated. *)
+From V Require Import JpegDCT.DctRestart JpegEnt.JentRst JpegEnt.JentProofsRst JpegEnt.JentProofsRstEx.
+
+Theorem C15_ent_restart_roundtrip : forall codes dcT acT tabs ri mcus tail,
+  1 <= ri ->
+  Forall (mcus_ok codes dcT acT tabs (map (fun _ => 0) tabs)) (chunks (Z.to_nat ri) mcus) ->
+  scan_end tail ->
+  dec_scan dcT acT (map comp_of tabs) ri (length mcus) (enc_scan_rst codes tabs ri mcus ++ tail)
+  = Ok (concat (map (tag 0) mcus)).
+Proof. exact ent_scan_rst_roundtrip. Qed.
+Print Assumptions C15_ent_restart_roundtrip.
+Example C15_ent_restart_instance :
+  1 <= 2 /\
+  Forall (mcus_ok ex_codes ex_dcT ex_acT [0] (map (fun _ => 0) [0])) (chunks (Z.to_nat 2) ex_grey_mcus) /\
+  scan_end [255; 217] /\
+  enc_scan_rst ex_codes [0] 2 ex_grey_mcus
+  = enc_scan_bytes ex_codes [0] [[ex_zz1]; [ex_zz2]] ++ [255; 208] ++ enc_scan_bytes ex_codes [0] [[ex_zz1]] /\
+  dec_scan ex_dcT ex_acT (map comp_of [0]) 2 3 (enc_scan_rst ex_codes [0] 2 ex_grey_mcus ++ [255; 217])
+  = Ok [(0, ex_zz1); (0, ex_zz2); (0, ex_zz1)] /\
+  dec_scan ex_dcT ex_acT (map comp_of [0]) 1 3 (enc_scan_rst ex_codes [0] 2 ex_grey_mcus ++ [255; 217]) = Err.
+Proof.
+  destruct ex_rst_eval as (E1 & E2 & E3 & _).
+  split; [lia|]. split; [exact ex_rst_ok|]. split; [exact ex_scan_end|]. split; [exact E1|]. split; [exact E2 | exact E3].
+Qed.
